@@ -974,7 +974,63 @@ def rule_o10(ctx, facts, rule="O10"):
         ctx.fail_closed("%s: no tree bin is retired whole anywhere (clear's tree arm was expected)" % rule)
 
 
+def rule_split_counters(ctx, facts, rule="O11"):
+    """the counters of a splitting copy walk count the nodes: in a loop of `transfer` that allocates one fresh node per visited node and
+    keeps usize tallies (`low_count`, `high_count`), every trip through the loop that allocates a node increments exactly one tally
+    exactly once.  The tallies decide whether the old tree bin is re-used for one half (count 0 on the other side) and whether a half is
+    untreeified; a tally that misses the first node of a list makes a 7 + 1 split re-use the old bin -- which still holds the eighth
+    node -- for the low half while a copy of that node is stored in the high half: iterators yield the key twice, and both copies share
+    one value."""
+    from .affine import evaluator, Aff, TOP
+    from .analysis import back_edges, loop_blocks, regions
+    from .anchors import is_fresh_alloc
+    b = facts.body("map::HashMap::transfer")
+    ev = evaluator(b)
+    locks = {r.call.b for r in regions(b)}
+    n = 0
+    for be in back_edges(b, unwind=False):
+        tail, head = be
+        L = loop_blocks(b, be, unwind=False)
+        if b.is_cleanup(head) or (locks & set(L)):
+            continue
+        allocs = [c for c in b.calls if c.b in L and is_fresh_alloc(b, c) and "node::BinEntry" in b.ty(c.dst_local()).get("s", "")]
+        if not allocs:
+            continue
+        incs = {}
+        for l in range(len(b.locals)):
+            if b.ty(l).get("s") != "usize" or not b.local_name(l):
+                continue
+            for pt, f in ev.def_forms(l):
+                if pt[0] in L and f is not TOP and f == Aff.sym(("phi", l)) + Aff.const(1):
+                    incs[Point(pt[0], pt[1])] = l
+        if len({l for l in incs.values()}) < 2:
+            continue          # not a splitting walk with tallies
+        outside = [x for x in range(len(b.blocks)) if x not in L]
+        for a in allocs:
+            n += 1
+            # (a) a way round the loop from the allocation back to the head without any increment
+            none = Point(head, 0) in reach(b, after(b, a.point, label="ret"), avoid=set(incs), avoid_blocks=outside, unwind=False)
+            # (b) two increments on one trip
+            twice = None
+            for ip in incs:
+                r2 = reach(b, after(b, ip), avoid={Point(head, 0)}, avoid_blocks=outside, unwind=False)
+                if any(jp in r2 for jp in incs):
+                    twice = ip
+            ok = not none and twice is None
+            names = sorted({b.local_name(l) for l in incs.values()})
+            ctx.inst(rule, b, "tallies %s count the nodes copied at %s" % (" / ".join(names), a.span.split(":", 1)[1]), a.span, ok,
+                     "every trip through the walk that copies a node increments exactly one of the tallies once" if ok else
+                     ("a trip through the walk copies a node (allocated at %s) and reaches the next iteration without incrementing %s: the tally is "
+                      "smaller than the list it describes, so the decision to re-use the old bin / to untreeify a half is taken on a wrong length"
+                      % (a.span, " or ".join(names)) if none else
+                      "one trip through the walk increments a tally twice (at %s and again)" % b.span_at(twice)))
+    if n < 1:
+        ctx.fail_closed("%s: the splitting walk of transfer's tree arm (fresh node per visited node, two usize tallies) was not found" % rule)
+
+
 def run(ctx, facts):
+    ctx.rule("O11", "the tallies of transfer's splitting walk count the nodes: exactly one increment per copied node", floor=1)
+    rule_split_counters(ctx, facts)
     ctx.rule("O10", "a tree bin retired whole (its Drop frees nodes and values) does not also have its nodes' values retired one by one", floor=1)
     rule_o10(ctx, facts)
     ctx.rule("O9", "lock -> re-validate the head -> only then unlink and retire (rule L1 of C01): a removal carried out on a bin that a resize "
